@@ -127,12 +127,21 @@ def run(ctx):
                 p = [True] * na + [False] * nb
                 rnd.shuffle(p)
                 todo.append((tuple(p), True))
-            for pi, (pat, is_random) in enumerate(todo):
+            # every unselected sample once right BEFORE all selected samples (an unselected value whose context
+            # carries an option key must not influence later selected values that lack the key), and once between them
+            lead = [((False,) + (True,) * min(3, len(anames_all)), b) for b in bnames_all]
+            lead += [((True, False) + (True,) * (min(3, len(anames_all)) - 1), b) for b in bnames_all if len(anames_all) > 1]
+            todo = [(p, False, None) for p, _ in todo if not _] + [(p, False, b) for p, b in lead] + \
+                   [(p, True, None) for p, r in todo if r]
+            for pi, (pat, is_random, forced_b) in enumerate(todo):
                 na, nb = sum(1 for x in pat if x), sum(1 for x in pat if not x)
                 if spec.is_async and na > len(anames_all):
                     continue        # converter results are attributed by file name: no duplicates
                 anames = [anames_all[(pi + k) % len(anames_all)] for k in range(na)]
                 bnames = [bnames_all[(pi * 3 + k) % len(bnames_all)] for k in range(nb)]
+                if forced_b is not None:
+                    anames = anames_all[:na]
+                    bnames = [forced_b]
                 sc = sl.Scenario(spec, pat, anames, bnames, os.path.join(scratch, spec.name))
                 trace = sc.run()
                 ctx.case([spec.name, list(pat), anames, bnames], nontrivial=na > 0 and nb > 0)
